@@ -226,3 +226,35 @@ package tlv
 //@   ensures seqid(result, nodes.enc)
 //@   ensures fresh(result)
 //@   assigns nothing
+
+// ---------------------------------------------------------------- node tree ghost model (trusted; unproved part of C16)
+// Every node object carries, besides nodeEnc / nodeVal / nodeValid: nodeTag(n) its tag, and for lookups inside a node
+// childOf(n, tag, occ) the occ-th child with that tag. topCount(src) / firstTag(src) describe the top level of a decoded
+// byte string: number of top-level data objects and the tag of the first one. A valid node found by a lookup has the
+// tag that was looked up.
+//@ uf nodeTag(ref) int
+//@ uf childOf(ref, int, int) ref
+//@ uf topCount(seq) int
+//@ uf firstTag(seq) int
+//@ func (n TlvNode) Tag
+//@   trusted
+//@   ensures result == nodeTag(ref(n))
+//@   pure
+//@ func (n TlvNode) NodeByTag(tag TlvTag) (result TlvNode)
+//@   trusted
+//@   ensures result != nil && ref(result) == childOf(ref(n), tag, 1) && (nodeValid(result) ==> nodeTag(ref(result)) == tag)
+//@   pure
+//@ func (n TlvNode) NodeByTagOccur(tag TlvTag, occurrence int) (result TlvNode)
+//@   trusted
+//@   requires occurrence >= 1
+//@   ensures result != nil && ref(result) == childOf(ref(n), tag, occurrence) && (nodeValid(result) ==> nodeTag(ref(result)) == tag)
+//@   pure
+//@ func (nodes TlvNodes) Nodes
+//@   trusted
+//@   ensures len(result) == topCount(nodes.src) && topCount(nodes.src) >= 0
+//@   ensures len(result) >= 1 ==> result[0] != nil && nodeTag(ref(result[0])) == firstTag(nodes.src) && nodeValid(result[0])
+//@   assigns nothing
+//@ func NewTlvNilNode
+//@   trusted
+//@   ensures result != nil && !nodeValid(result)
+//@   assigns nothing
